@@ -103,7 +103,7 @@ def run(ctx, rep):
             rep.violation('S2', vkey('S2', AL.name, 'checksum-flow', ''), AL.loc(AL.span),
                           'the checksum handed to the long-name slot generator is not lfn_checksum(short name)')
         NX = facts.fns.get('<fatfs::dir::LfnEntriesGenerator as core::iter::traits::iterator::Iterator>::next')
-        if NX is not None:
+        if NX is not None and ctx.config != 'nostd':
             d3 = Deps(NX)
             news = [(b, t) for b, t in NX.calls() if (t.get('callee') or '').endswith('DirLfnEntryData::new')]
             ok = bool(news) and all(('field', 'checksum') in d3.of_operand(t['args'][1]) for b, t in news)
